@@ -628,6 +628,11 @@ fn collect_minimum_serialized_edges(
     visited_edges: &mut FxHashSet<QueryEdge>,
 ) {
     let Some(memo) = ingredient.memo(zalsa, edge.key().key_index()) else {
+        // There is no memo to flatten (e.g. a memo without a value is not serialized, so after
+        // a round-trip the dependencies of a restored memo may not have memos yet). Nothing
+        // covers the dependency, so the edge has to be preserved as is: dropping it would make
+        // the serialized query miss any future change to the dependency.
+        serialized_edges.insert(edge);
         return;
     };
 
